@@ -23,9 +23,13 @@ type params struct {
 	Incoming int      // number of incoming calls + replies the broker pushes to ReceiveCall / ReceiveReplyCall consumers
 	F        int
 	P        int
+	Flood    int // replies for nobody (and incoming calls) delivered before the callers start, with no Receive* consumer: the inboxes hold 1024
 }
 
 func (p params) name() string {
+	if p.Flood > 0 {
+		return fmt.Sprintf("%s/neg%v/sp%v/in%d/F%d/P%d/flood%d", strings.Join(p.Kinds, ","), p.Neg, p.Spurious, p.Incoming, p.F, p.P, p.Flood)
+	}
 	return fmt.Sprintf("%s/neg%v/sp%v/in%d/F%d/P%d", strings.Join(p.Kinds, ","), p.Neg, p.Spurious, p.Incoming, p.F, p.P)
 }
 
@@ -41,6 +45,8 @@ func scenarios(tier string) []vlib.Scenario {
 	}
 	add(params{Kinds: []string{"callwait", "callwait"}, Incoming: 3, F: 1})
 	add(params{Kinds: []string{"call", "callwait"}, Incoming: 0, F: 1})
+	// an application that never calls ReceiveCall / ReceiveReplyCall: the inboxes are full, callers are still served
+	add(params{Kinds: []string{"callwait", "call"}, Incoming: 0, Flood: 1030})
 	if tier == "thorough" {
 		for i, a := range kinds {
 			for j, b := range kinds[i:] {
@@ -252,6 +258,18 @@ func (w *world) main() {
 				w.recvReplies = append(w.recvReplies, c)
 			}
 		})
+	}
+	if w.p.Flood > 0 {
+		if c := w.B.Live(); c != nil {
+			for i := 0; i < w.p.Flood; i++ {
+				w.B.Send(c, &message.DownstreamCall{CallID: fmt.Sprintf("fr-%d", i), RequestCallID: fmt.Sprintf("nobody-%d", i), SourceNodeID: "peer", Name: "n", Type: "t"})
+				w.B.Send(c, &message.DownstreamCall{CallID: fmt.Sprintf("fc-%d", i), SourceNodeID: "peer", Name: "n", Type: "t"})
+				if i%64 == 63 {
+					vsched.Quiesce()
+				}
+			}
+		}
+		vsched.Quiesce()
 	}
 	for i := range w.callers {
 		c := w.callers[i]
